@@ -199,27 +199,32 @@ func c10Conservation(c *lab.Ctx, e *engine, clusters []string, when string, peer
 	// connection-type: upstream connection_active per cluster must equal the sockets the upstream peers hold
 	if !peersClosed {
 		for _, p := range engineProtos {
-			open := e.log.openConns(p+"-a") + e.log.openConns(p+"-b") + e.log.openConns(p+"-c") + e.log.openConns(p+"-d")
-			var counted int64
-			for k, v := range books {
-				if strings.HasPrefix(k, "upstream{cluster=cl-"+p) && !strings.Contains(k, "host=") && strings.HasSuffix(k, "connection_active") {
-					counted += v
+			// truth = the kernel's view: ESTABLISHED sockets whose remote end is one of this protocol's upstream ports
+			sockets := func() int64 {
+				var n int64
+				for _, hn := range []string{"a", "b", "c", "d"} {
+					n += int64(establishedTo(e.ups[p+"-"+hn].port()))
 				}
+				return n
 			}
-			if counted != open {
-				// give closing sockets a moment and re-read both sides once
-				time.Sleep(300 * time.Millisecond)
-				open = e.log.openConns(p+"-a") + e.log.openConns(p+"-b") + e.log.openConns(p+"-c") + e.log.openConns(p+"-d")
-				counted = 0
-				for k, v := range activeBooks() {
+			count := func(b map[string]int64) int64 {
+				var n int64
+				for k, v := range b {
 					if strings.HasPrefix(k, "upstream{cluster=cl-"+p) && !strings.Contains(k, "host=") && strings.HasSuffix(k, "connection_active") {
-						counted += v
+						n += v
 					}
 				}
+				return n
+			}
+			open, counted := sockets(), count(books)
+			for try := 0; try < 5 && counted != open; try++ {
+				// sockets being closed right now: re-read both sides
+				time.Sleep(200 * time.Millisecond)
+				open, counted = sockets(), count(activeBooks())
 			}
 			if counted != open {
 				c.Violation("connection-books-match-sockets", "C10/connection-gauge-vs-sockets/"+p,
-					fmt.Sprintf("%s: clusters of %s count %d active upstream connections, the upstream peers hold %d sockets open", when, p, counted, open), map[string]interface{}{"when": when, "books": nonZero(books)})
+					fmt.Sprintf("%s: clusters of %s count %d active upstream connections, the kernel shows %d established connections to those upstream ports", when, p, counted, open), map[string]interface{}{"when": when, "books": nonZero(books)})
 			}
 			c.Distinct(fmt.Sprintf("conn|%s|%d", p, open))
 		}
